@@ -53,7 +53,7 @@ EXPLANATION = ("Models: Model/Retro.v (wrappers, PlatePermutation, SampleSegrega
                "Generated/SrcRetro.v) and Proofs/C11Source.v proves each translation equal to the hand-written model for all inputs: "
                "RetrospectivePlateGenerator.generate_plates and RetrospectivePlateSmoother.smooth_plates (core.py; = wrap f for "
                "EVERY inner f), MergeMinPlateSmoother._get_plate_sample_id and ._smooth_plates (the `while True` becomes recursion "
-               "on an explicit fuel parameter, Err 98 when it runs out; the link holds whenever fuel > number of experiments), and "
+               "on an explicit fuel parameter, Err 97 when it runs out; the link holds whenever fuel > number of experiments), and "
                "MergeTopBottomPlateSmoother._get_plate_sample_id and ._smooth_plates (its `break` in a for loop is PyRt.res_fold_brk), "
                "create_plate_balanced_holdout_set_among_masked_plates.  A change of these functions changes the generated "
                "definition: either the translator refuses it (build stops) or the linking proof no longer compiles (broken "
